@@ -262,3 +262,18 @@ proof fn lemma_prev_unique(a1: State, n1: nat, a2: State, n2: nat, s: State)
         assert(undo_n(a2.mach(), a2.log(), c, (n1 - n2) as nat) is None);
     }
 }
+
+// ================= driving the machine (C15, C17) =================
+pub uninterp spec fn token_location_spec(sources: Seq<(Xstr, Xstr)>, tok: Xsubstr) -> Option<TokenLocation>;
+// the location the debug map gives for the current ip
+spec fn loc_at_ip(s: &State) -> Option<TokenLocation> {
+    if s.ctx.ip < s.debug_map@.len() { token_location_spec(s.sources@, s.debug_map@[s.ctx.ip as int]) } else { None }
+}
+spec fn err_cleared(s: &State) -> State { State { last_error: None, ..*s } }
+// one successful instruction: what fetch_and_run guarantees of it
+spec fn step_ok(a: &State, b: &State) -> bool {
+    &&& a.ctx.ip < a.code@.len()
+    &&& exec_ok(a, b)
+    &&& b.insn_meter > a.insn_meter
+    &&& exists|n: nat| #[trigger] insn_rev(a, b, n) && insn_ext(a, b, n)
+}
